@@ -678,7 +678,19 @@ func (w *WalletManager) signWitnessTx(password []byte, tx *wire.MsgTx, hashType 
 		}
 
 		scriptFlags := txscript.StandardVerifyFlags
-		if forks.EnforceMASSIP0002WarmUp(cacheMeta[txIn.PreviousOutPoint.Hash].Height) {
+		// the previous transaction of a pending (unmined) output has no block yet: it can be
+		// mined in the next block at the earliest
+		var prevHeight uint64
+		if meta := cacheMeta[txIn.PreviousOutPoint.Hash]; meta != nil {
+			prevHeight = meta.Height
+		} else {
+			_, bestHeight, err := w.chainFetcher.NewestSha()
+			if err != nil {
+				return err
+			}
+			prevHeight = bestHeight + 1
+		}
+		if forks.EnforceMASSIP0002WarmUp(prevHeight) {
 			scriptFlags |= txscript.ScriptMASSip2
 		}
 		// Either it was already signed or we just signed it.
